@@ -11,9 +11,30 @@ sys.path.insert(0, os.path.join(os.path.dirname(os.path.abspath(__file__)), ".."
 import vlib, gqlgen, execcheck
 
 
-def inject(world, pos, kind, item=None):
+def invalid_value(ts, world, pos):
+    """a leaf value of the wrong kind for the field's declared type (dynamic schemas), or None"""
+    oid, f = pos
+    ty = ts["types"][world[oid]["type"]]["fields"][f]["ty"]
+    if ty["k"] == "nn":
+        ty = ty["of"]
+    if ty["k"] != "named":
+        return None
+    n = ty["n"]
+    if gqlgen.kind(ts, n) == "ENUM":
+        return {"k": "enum", "v": "PURPLE"}
+    if n in ("Int", "Float", "Boolean"):
+        return {"k": "str", "v": "wrong"}
+    if n == "String":
+        return {"k": "int", "v": "5"}
+    return None
+
+
+def inject(world, pos, kind, item=None, value=None):
     w = json.loads(json.dumps(world))
     oid, f = pos
+    if value is not None:
+        w[oid]["vals"][f] = value
+        return w
     cur = w[oid]["vals"][f]
     if item is not None and cur.get("k") == "list" and cur["items"]:
         cur["items"][item % len(cur["items"])] = {"k": kind}
@@ -65,6 +86,12 @@ def body(c):
                 continue
             # every single fault position
             for pos in positions:
+                if flavour == "dynamic":
+                    iv = invalid_value(ts, base, pos)
+                    if iv is not None and base[pos[0]]["vals"][pos[1]].get("k") != "null":
+                        cases.append({"id": 0, "flavour": flavour, "doc": d, "opIndex": 1, "vars": supplied, "world": inject(base, pos, "", value=iv),
+                                      "schedule": [], "faults": [list(pos) + ["invalid"]]})
+                        nsingle += 1
                 for kind in fault_kinds(ts, base, pos, flavour):
                     if kind == "nothing" and rng.random() < 0.5:
                         continue
@@ -109,7 +136,7 @@ def body(c):
     c.cov["single_fault_cases"] = nsingle
     c.cov["fault_pair_cases"] = npair
     c.cov["rule"] = ("for every TLC-generated query (<=%d nodes) / mutation (<=3 nodes) and seeded random document, for both schema flavours: every "
-                     "single fault position of the resolved tree (resolver error; dynamic also 'nothing'; static also a failing list item and a "
+                     "single fault position of the resolved tree (resolver error; dynamic also 'nothing' and a leaf value invalid for its type; static also a failing list item and a "
                      "rejecting guard) and sampled pairs of positions; non-trivial = at least one error was reported; distinct by (flavour, text, "
                      "variables, world)" % n)
     for o in [x for x in obs if x["obs"]["errors"]][:2]:
